@@ -54,6 +54,10 @@ def check(ctx, tier):
                                                       [c.flow.param("shexer.shaper:Shaper.__init__", "remove_empty_shapes")],
                                                       skip_funcs={"shexer.shaper:Shaper.__init__"})[0], ctx, "D-h", default=[])
     obs += ctx.attempt(lambda c, cl: mergetable.invariants(c, cl, which=('no-crash',))[0], ctx, "D-i", default=[])
+    from .c17 import class_without_instances_row
+    obs += ctx.attempt(class_without_instances_row, ctx, "D-j", default=[])
+    from ..rules import scanner
+    obs += ctx.attempt(scanner.line_reader_split, ctx, "D-j", default=[])      # raw documents are cut at '\\n' only (a literal may hold U+2028 ...)
     exceptions.apply(obs)
     floors = [Floor("R-SIG call sites bound against a signature", len(o_calls), 850),
               Floor("R-SIG methods with self-attribute reads", len(o_self), 500),
